@@ -725,6 +725,7 @@ func runC14(c *Ctx) {
 	rulePathBytesPassThrough(c)
 	ruleZeroOptions(c)
 	ruleSetOptionsRendered(c)
+	ruleEhloKeys(c)
 
 	R.Rule("R-field-key", "E8+E4 pairing", "the client renders each option field under the key the server stores it from; NOTIFY separator, RRVS layout and the unitext/xtext choice agree", 10)
 	pairs := []struct{ fn, token, source string }{
